@@ -228,7 +228,7 @@ def row_wrapper(rng, nps, mu_0):
     mid = np.deg2rad(p1 + (p2 - p1) * nps.uniform(0.05, 0.95))
     out_ang = np.deg2rad(p2 + (360 - min(p2 - p1, 359)) * nps.uniform(0.05, 0.95))
     os_ = rng.choice(["inside", "inside", "bore", "outer", "above", "outside_phi", "far", "surf_z", "surf_r2", "surf_r1", "surf_phi",
-                      "axis", "edge_plane", "generic"])
+                      "axis", "edge_plane", "generic", "apex_end", "apex_in", "vertex_shell", "edge_shell"])
     zin = h / 2 * nps.uniform(-0.95, 0.95)
     rin = r1 + (r2 - r1) * nps.uniform(0.05, 0.95)
 
@@ -262,6 +262,25 @@ def row_wrapper(rng, nps, mu_0):
         x = (*(exact[a] if a in exact else polar(rr, ar)), zin)
     elif os_ == "axis":
         x = (0.0, 0.0, rng.choice([zin, h * nps.uniform(0.6, 2), h / 2]))
+    elif os_ == "apex_end":  # end points of the apex line of a segment without bore (also when azimuth 0 is not in the range)
+        r1 = 0.0
+        x = (0.0, 0.0, rng.choice([-1, 1]) * h / 2)
+    elif os_ == "apex_in":  # interior points of the apex line
+        r1 = 0.0
+        x = (0.0, 0.0, zin)
+    elif os_ == "vertex_shell":  # 5e-13 (in units of r2) outside a vertex: inside `close`, outside the former 1e-14 slabs
+        e = 5e-13 * r2 * rng.choice([1.0, 1.0, -1.0])
+        rv = r2 if (not r1 or rng.random() < 0.6) else r1
+        x = (*polar(rv + e, np.deg2rad(rng.choice([p1, p2]))), rng.choice([-1, 1]) * (h / 2 + e))
+    elif os_ == "edge_shell":  # the same next to an edge (two coordinates on the boundary, the third strictly inside)
+        e = 5e-13 * r2
+        kind = rng.choice(["rz", "rphi", "phiz"])
+        if kind == "rz":
+            x = (*polar(r2 + e, mid), rng.choice([-1, 1]) * (h / 2 + e))
+        elif kind == "rphi":
+            x = (*polar(r2 + e, np.deg2rad(rng.choice([p1, p2]))), zin)
+        else:
+            x = (*polar(rin, np.deg2rad(rng.choice([p1, p2]))), rng.choice([-1, 1]) * (h / 2 + e))
     elif os_ == "edge_plane":  # base plane and a radius at once
         x = (*on_circle(rng, nps, rng.choice([r2, r1 or r2])), rng.choice([-1, 1]) * h / 2)
     else:
